@@ -15,6 +15,7 @@ type Edge struct {
 	from *ssa.BasicBlock
 	pc   string
 	st   *State
+	esc  map[ssa.Value]SV // values of an unrolled loop that are used after it, as of this exit
 }
 
 // Ret is one return point of a function execution.
@@ -42,6 +43,14 @@ type Frame struct {
 	params  map[string]SV
 	depth   int
 	curHead *ssa.BasicBlock
+	curBlock *ssa.BasicBlock
+	unrolling *loopInfo
+	unwinding *loopInfo
+	unwindBound int
+	backEdges []Edge
+	loopEsc []escLoop
+	headVals map[*ssa.Phi]SV
+	useHeadVals bool
 }
 
 type loopInfo struct {
@@ -52,6 +61,7 @@ type loopInfo struct {
 	// recorded at head for the back-edge check
 	headPC  string
 	autoSpec *LoopSpec
+	headState *State
 	decEntry string
 }
 
@@ -148,10 +158,24 @@ func (f *Frame) run(pc string, st *State) {
 	}
 	f.entrySt = st
 	f.in[f.fn.Blocks[0]] = []Edge{{pc: pc, st: st}}
-	for _, b := range f.rpo() {
+	order := f.rpo()
+	done := map[*ssa.BasicBlock]bool{}
+	for _, b := range order {
+		if done[b] {
+			continue
+		}
 		edges := f.in[b]
 		if len(edges) == 0 {
 			continue
+		}
+		if li := f.loops[b]; li != nil {
+			if u := f.unrollBound(li); u > 0 {
+				f.unrollLoop(li, order, u)
+				for lb := range li.blocks {
+					done[lb] = true
+				}
+				continue
+			}
 		}
 		bpc, bst := f.merge(b, edges)
 		if bpc == "false" {
@@ -162,6 +186,135 @@ func (f *Frame) run(pc string, st *State) {
 		}
 		f.execBlock(b, bpc, bst)
 	}
+}
+
+// unrollBound returns the unrolling bound given for the loop (0: use invariants).
+func (f *Frame) unrollBound(li *loopInfo) int {
+	if f.con == nil {
+		return 0
+	}
+	return f.con.Unroll[li.ordinal]
+}
+
+// unrollLoop executes the loop body up to bound times in place; afterwards the loop must have exited
+// (unwinding obligation), so this is complete, not a bounded approximation.
+func (f *Frame) unrollLoop(li *loopInfo, order []*ssa.BasicBlock, bound int) {
+	vc := f.vc
+	h := li.head
+	// values defined in the loop and used after it: carried on the exit edges
+	var escaping []ssa.Value
+	for _, b := range order {
+		if !li.blocks[b] {
+			continue
+		}
+		for _, ins := range b.Instrs {
+			v, ok := ins.(ssa.Value)
+			if !ok || v.Referrers() == nil {
+				continue
+			}
+			for _, r := range *v.Referrers() {
+				if r.Block() != nil && !li.blocks[r.Block()] {
+					escaping = append(escaping, v)
+					break
+				}
+			}
+		}
+	}
+	f.loopEsc = append(f.loopEsc, escLoop{li: li, vals: escaping})
+	edges := f.in[h]
+	for iter := 0; ; iter++ {
+		if len(edges) == 0 {
+			break
+		}
+		f.in[h] = edges
+		bpc, bst := f.merge(h, edges)
+		if bpc == "false" {
+			break
+		}
+		// checkpoints: the loop's invariant clauses are checked at the head of every unrolled iteration and known afterwards
+		if f.con != nil {
+			if spec := f.con.Loops[li.ordinal]; spec != nil {
+				f.curHead = h
+				for i, inv := range spec.Invariants {
+					if inv.Tier == "thorough" && vc.eng.tier != "thorough" {
+						continue
+					}
+					env := f.env(bst, f.entrySt, nil)
+					t, err := env.eval(inv.Expr)
+					name := vc.oblName(fmt.Sprintf("inv%d", li.ordinal), fmt.Sprintf("checkpoint#%d%s@iter%d.%s", i, labelSuffix(inv.Labels), iter, f.prefix))
+					if err != nil {
+						vc.failObl(name, inv, err)
+						continue
+					}
+					vc.addObl(&Obl{Name: name, Kind: "inv-entry", Labels: inv.Labels, Pos: vc.eng.fset.Position(h.Instrs[len(h.Instrs)-1].Pos()), PC: bpc, Goal: t, Clause: inv.Text, Tier: inv.Tier})
+					vc.assume(bpc, t)
+				}
+				f.curHead = nil
+			}
+		}
+		if iter == bound {
+			// evaluate the loop condition once more: only exits may be taken (unwinding assertion in flow)
+			f.unrolling = li
+			f.unwinding = li
+			f.unwindBound = bound
+			f.execBlock(h, bpc, bst)
+			f.unwinding = nil
+			f.unrolling = nil
+			break
+		}
+		f.backEdges = nil
+		f.unrolling = li
+		first := true
+		for _, b := range order {
+			if !li.blocks[b] {
+				continue
+			}
+			if b == h {
+				if !first {
+					continue
+				}
+				first = false
+				f.execBlock(h, bpc, bst)
+				continue
+			}
+			if inner := f.loops[b]; inner != nil && inner != li {
+				// nested loop inside an unrolled loop: handled by its own annotations
+				ie := f.in[b]
+				if len(ie) == 0 {
+					continue
+				}
+				ipc, ist := f.merge(b, ie)
+				if ipc == "false" {
+					continue
+				}
+				ipc, ist = f.loopHead(inner, b, ie, ipc, ist)
+				f.execBlock(b, ipc, ist)
+				continue
+			}
+			ie := f.in[b]
+			if len(ie) == 0 {
+				continue
+			}
+			ipc, ist := f.merge(b, ie)
+			if ipc == "false" {
+				continue
+			}
+			f.execBlock(b, ipc, ist)
+		}
+		f.unrolling = nil
+		// next iteration: the back edges; loop-internal inboxes are cleared
+		for b := range li.blocks {
+			delete(f.in, b)
+		}
+		edges = f.backEdges
+		f.backEdges = nil
+	}
+	delete(f.in, h)
+}
+
+type escLoop struct {
+	li   *loopInfo
+	vals []ssa.Value
 }
 
 // merge joins the incoming edges of block b; it also defines b's phi values.
@@ -190,6 +343,26 @@ func (f *Frame) merge(b *ssa.BasicBlock, edges []Edge) (string, *State) {
 			}
 		}
 		f.vals[phi] = f.mergeSV(phi.Type(), alts, conds, "phi_"+sanitize(phi.Comment))
+	}
+	// values escaping from unrolled loops: one definition per exit edge, joined here
+	escKeys := map[ssa.Value]bool{}
+	for _, e := range edges {
+		for v := range e.esc {
+			escKeys[v] = true
+		}
+	}
+	for v := range escKeys {
+		var alts []SV
+		var conds []string
+		for _, e := range edges {
+			if sv, ok := e.esc[v]; ok {
+				alts = append(alts, sv)
+				conds = append(conds, e.pc)
+			}
+		}
+		if len(alts) > 0 {
+			f.vals[v] = f.mergeSV(v.Type(), alts, conds, "esc_"+sanitize(v.Name()))
+		}
 	}
 	pos := token.NoPos
 	if len(b.Instrs) > 0 {
@@ -233,7 +406,7 @@ func (f *Frame) mergeSV(t types.Type, alts []SV, conds []string, name string) SV
 	if len(alts) == 0 {
 		return SV{Typ: t}
 	}
-	allSame := true
+	allSame := len(alts[0].Tup) == 0
 	for _, a := range alts[1:] {
 		if a.T != alts[0].T || !samePtr(a.P, alts[0].P) || (a.F == nil) != (alts[0].F == nil) || (a.F != nil && a.F.fn != alts[0].F.fn) {
 			allSame = false
